@@ -4,7 +4,7 @@ from vcommon import Cfg
 from simple import Simple
 
 S = Simple("C14", "nonce", "nonce.cpp",
-           lambda tier: hb.quick_cfgs() if tier == "quick" else [Cfg("asm"), Cfg("c32", 3, 3, 3), Cfg("c64", 2, 1, 2), Cfg("generic")],
+           lambda tier: hb.quick_cfgs(),
            lambda tier: [("c14_sessions", 120000 if tier == "quick" else 1200000, 40), ("c14_helpers", 40000 if tier == "quick" else 400000, 100)],
            "c14_sessions: Case = (session type in 3 C incremental states + 12 C++ classes (aead/masked/siv/isap x 3), key, start nonce = random prefix || FF^k "
            "for k = 0..16 (every carry-chain length incl. wrap at 2^128), command list from {encrypt packet, decrypt good packet, decrypt forged packet, "
